@@ -529,3 +529,26 @@ def _show(v):
 def _trunc(x):
     r = repr(x)
     return r if len(r) < 1500 else r[:1500] + '...'
+
+
+def bounded_standin(ci: ContractInfo, n: int, rng):
+    """Bounded stand-in for a function the deductive engine cannot handle: n random inputs from the contract's own input
+    builder, all clauses evaluated natively.  Returns (cases_run, first failing record or None)."""
+    ran = 0
+    for _ in range(n):
+        g = ConcreteFactory({}, rng=rng, bound=6)
+        try:
+            failed = native_check(ci, g)
+        except Exception:
+            continue
+        if failed is None:
+            continue
+        ran += 1
+        if failed:
+            kind, label = failed[0].split(':', 1)
+            info = replay(ci, kind, label, g.used) if kind != 'frame' else replay(ci, 'frame', label, g.used)
+            if info.get('confirmed'):
+                info['found_by'] = 'bounded stand-in (function outside the verified subset)'
+                info['obligation'] = failed[0]
+                return ran, info
+    return ran, None
